@@ -19,6 +19,7 @@ from vf import refmodel as rm
 from vf import specs, classgen
 from vf.nodekit import Kit, FakeConn
 from vf.runner import drive, VERIF
+from vf.checks.c03 import complete
 
 PROPERTY = 'C10'
 LEVEL = 'exploration'
@@ -100,6 +101,8 @@ def dt_props(draw, T):
 
 def value_class(T2, v):
     st_, why = rm.status(T2, v, 'drv')
+    if st_ == 'A' and not complete(T2, v):
+        return 'range', 'partial-struct'    # a stored value is a complete struct; partial ones are shapes of change requests
     if st_ == 'A':
         return 'valid', why
     if st_ == 'E':
